@@ -1,6 +1,8 @@
 package statebackend
 
 import (
+	"errors"
+
 	"github.com/NethermindEth/juno/core"
 	"github.com/NethermindEth/juno/core/deprecatedstate"
 	"github.com/NethermindEth/juno/core/felt"
@@ -29,16 +31,18 @@ func (b *deprecatedStateBackend) HeadState() (core.StateReader, StateCloser, err
 func (b *deprecatedStateBackend) StateAtBlockNumber(
 	blockNumber uint64,
 ) (core.StateReader, StateCloser, error) {
-	err := pruner.RequireStateRetainedByBlockNumber(b.database, b.retentionFloor, blockNumber)
+	// The reader works on a snapshot taken before the retention check: the legacy history
+	// lookup is a sequence of reads (history records first, the head value when there is
+	// none), so a block stored, reverted or pruned between two of them must not be visible.
+	snapshot := b.database.NewSnapshot()
+	err := pruner.RequireStateRetainedByBlockNumber(snapshot, b.retentionFloor, blockNumber)
 	if err != nil {
-		return nil, nil, err
+		return nil, nil, closeOnError(snapshot, err)
 	}
-	//nolint:staticcheck,nolintlint // used by old state
-	txn := b.database.NewIndexedBatch()
 	return deprecatedstate.NewHistory(
-		deprecatedstate.New(txn),
+		deprecatedstate.New(snapshotBatch{snapshot}),
 		blockNumber,
-	), NoopStateCloser, nil
+	), snapshot.Close, nil
 }
 
 func (b *deprecatedStateBackend) StateAtBlockHash(
@@ -51,17 +55,41 @@ func (b *deprecatedStateBackend) StateAtBlockHash(
 		return deprecatedstate.New(txn), NoopStateCloser, nil
 	}
 
-	blockNumber, err := pruner.BlockNumberByHashIfStateRetained(b.database, blockHash)
+	// see StateAtBlockNumber
+	snapshot := b.database.NewSnapshot()
+	blockNumber, err := pruner.BlockNumberByHashIfStateRetained(snapshot, blockHash)
 	if err != nil {
-		return nil, nil, err
+		return nil, nil, closeOnError(snapshot, err)
 	}
 
-	txn := b.database.NewIndexedBatch() //nolint:staticcheck // indexedBatch used by old state
 	return deprecatedstate.NewHistory(
-		deprecatedstate.New(txn),
+		deprecatedstate.New(snapshotBatch{snapshot}),
 		blockNumber,
-	), NoopStateCloser, nil
+	), snapshot.Close, nil
 }
+
+// snapshotBatch lets the legacy state implementation, which reads through a
+// db.IndexedBatch, read from a database snapshot. Historical readers never write.
+type snapshotBatch struct {
+	db.Snapshot
+}
+
+// closeOnError releases the snapshot of a reader that could not be opened and returns
+// the reason unchanged (callers compare it with db.ErrKeyNotFound).
+func closeOnError(snapshot db.Snapshot, err error) error {
+	if closeErr := snapshot.Close(); closeErr != nil {
+		return errors.Join(err, closeErr)
+	}
+	return err
+}
+
+var errReadOnlyState = errors.New("historical state reader is read-only")
+
+func (snapshotBatch) Put(key, value []byte) error         { return errReadOnlyState }
+func (snapshotBatch) Delete(key []byte) error             { return errReadOnlyState }
+func (snapshotBatch) DeleteRange(start, end []byte) error { return errReadOnlyState }
+func (snapshotBatch) Size() int                           { return 0 }
+func (snapshotBatch) Write() error                        { return errReadOnlyState }
 
 func (b *deprecatedStateBackend) Store(
 	block *core.Block,
